@@ -773,9 +773,10 @@ class Evaluator:
                 return base.format(*args, **kwargs)
             if isinstance(base, Obj) and (base._cls, f.attr) in self.methods and self._call_depth < self.max_call_depth - 2:
                 return self.invoke(self.methods[(base._cls, f.attr)], [base] + args, kwargs)
-            if isinstance(base, dict) and f.attr in ("setdefault", "get", "pop", "keys", "values", "items", "update"):
+            if isinstance(base, dict) and f.attr in ("setdefault", "get", "pop", "keys", "values", "items", "update", "clear", "copy"):
                 return getattr(base, f.attr)(*args, **kwargs)
-            if isinstance(base, list) and f.attr in ("append", "extend", "sort", "index", "count", "insert", "remove", "pop"):
+            if isinstance(base, list) and f.attr in ("append", "extend", "sort", "index", "count", "insert", "remove", "pop", "clear",
+                                                      "copy", "reverse"):
                 if f.attr == "sort" and not callable(kwargs.get("key")) and any(isinstance(x, Obj) for x in base):
                     base[:] = self.call_sorted(base)
                     return None
